@@ -542,3 +542,156 @@ Proof.
     assert (E2 : (t_step x =? t_step y) = false) by (apply Nat.eqb_neq; lia).
     rewrite E1, E2. reflexivity.
 Qed.
+
+(* ---------------- _tensor_contract_dense: relabelling ---------------- *)
+Definition pair_labels (pairs : list (nat * nat)) : list nat :=
+  flat_map (fun p => [fst p; snd p]) pairs.
+
+(* what has to hold of the positions handed to _tensor_contract_single: they
+   point, in the current array, at the axes that carry the original labels *)
+Fixpoint relabel_ok (axis : list nat) (pairs out : list (nat * nat)) : Prop :=
+  match pairs, out with
+  | [], [] => True
+  | (a, b) :: t, (ia, ib) :: o =>
+      ia < length axis /\ ib < length axis /\ ia <> ib /\
+      nth ia axis 0 = a /\ nth ib axis 0 = b /\
+      relabel_ok (remove_first b (remove_first a axis)) t o
+  | _, _ => False
+  end.
+
+Fixpoint final_axes (axis : list nat) (pairs : list (nat * nat)) : list nat :=
+  match pairs with
+  | [] => axis
+  | (a, b) :: t => final_axes (remove_first b (remove_first a axis)) t
+  end.
+
+Lemma index_of_nat_spec : forall l x, In x l ->
+  index_of_nat x l < length l /\ nth (index_of_nat x l) l 0 = x.
+Proof.
+  induction l as [|y l IH]; intros x H; [destruct H|]. simpl.
+  destruct (Nat.eqb_spec x y) as [E|E]; [subst; split; [lia|reflexivity]|].
+  destruct H as [H|H]; [congruence|]. destruct (IH x H) as [A B]. split; [lia|exact B].
+Qed.
+
+Lemma filter_twice : forall (f g : nat -> bool) l,
+  filter f (filter g l) = filter (fun x => g x && f x) l.
+Proof.
+  intros f g l. induction l as [|x l IH]; simpl; [reflexivity|].
+  destruct (g x); simpl; [destruct (f x); simpl; rewrite IH; reflexivity|exact IH].
+Qed.
+
+Lemma filter_all : forall (l : list nat), filter (fun _ => true) l = l.
+Proof. induction l as [|z l IH]; simpl; [reflexivity|]. rewrite IH. reflexivity. Qed.
+
+Lemma remove_first_filter : forall l x, NoDup l ->
+  remove_first x l = filter (fun y => negb (y =? x)) l.
+Proof.
+  induction l as [|y l IH]; intros x ND; [reflexivity|].
+  inversion ND as [|? ? Hn ND']; subst. simpl.
+  destruct (Nat.eqb_spec x y) as [E|E].
+  - subst y. rewrite Nat.eqb_refl. simpl.
+    rewrite <- (filter_all l) at 1. apply filter_ext_in.
+    intros z Hz. destruct (Nat.eqb_spec z x) as [F|F]; [subst; tauto|reflexivity].
+  - assert (F : (y =? x) = false) by (apply Nat.eqb_neq; lia). rewrite F. simpl.
+    rewrite IH by exact ND'. reflexivity.
+Qed.
+
+Lemma remove_first_NoDup : forall l x, NoDup l -> NoDup (remove_first x l).
+Proof. intros l x ND. rewrite remove_first_filter by exact ND. apply NoDup_filter. exact ND. Qed.
+
+Lemma remove_first_In : forall l x y, NoDup l -> (In y (remove_first x l) <-> In y l /\ y <> x).
+Proof.
+  intros l x y ND. rewrite remove_first_filter by exact ND. rewrite filter_In. split.
+  - intros [A B]. split; [exact A|]. intro E. subst. rewrite Nat.eqb_refl in B. discriminate.
+  - intros [A B]. split; [exact A|]. apply negb_true_iff. apply Nat.eqb_neq. exact B.
+Qed.
+
+Theorem contract_relabel_ok : forall pairs axis,
+  NoDup axis -> NoDup (pair_labels pairs) -> (forall x, In x (pair_labels pairs) -> In x axis) ->
+  relabel_ok axis pairs (contract_relabel axis pairs).
+Proof.
+  induction pairs as [|[a b] pairs IH]; intros axis NA NP HI; [exact I|].
+  simpl in NP. inversion NP as [|? ? Ha NP']; subst. inversion NP' as [|? ? Hb NP'']; subst.
+  assert (Iaa : In a axis) by (apply HI; left; reflexivity).
+  assert (Ibb : In b axis) by (apply HI; right; left; reflexivity).
+  assert (Nab : a <> b) by (intro E; apply Ha; left; congruence).
+  destruct (index_of_nat_spec axis a Iaa) as [A1 A2].
+  destruct (index_of_nat_spec axis b Ibb) as [B1 B2].
+  cbn [contract_relabel relabel_ok].
+  split; [exact A1|]. split; [exact B1|]. split; [intro E; apply Nab; rewrite <- A2, <- B2, E; reflexivity|].
+  split; [exact A2|]. split; [exact B2|].
+  apply IH.
+  - apply remove_first_NoDup. apply remove_first_NoDup. exact NA.
+  - exact NP''.
+  - intros x Hx.
+    apply remove_first_In; [apply remove_first_NoDup; exact NA|]. split.
+    + apply remove_first_In; [exact NA|]. split; [apply HI; right; right; exact Hx|].
+      intro E. subst x. apply Ha. right. exact Hx.
+    + intro E. subst x. apply Hb. exact Hx.
+Qed.
+
+(* the axes that are left, in their original order *)
+Theorem final_axes_spec : forall pairs axis, NoDup axis ->
+  final_axes axis pairs = filter (fun x => negb (memb x (pair_labels pairs))) axis.
+Proof.
+  induction pairs as [|[a b] pairs IH]; intros axis NA; simpl.
+  - symmetry. apply filter_all.
+  - rewrite IH by (apply remove_first_NoDup; apply remove_first_NoDup; exact NA).
+    rewrite (remove_first_filter (remove_first a axis) b) by (apply remove_first_NoDup; exact NA).
+    rewrite (remove_first_filter axis a NA). rewrite !filter_twice.
+    apply filter_ext. intros x. unfold memb. simpl.
+    rewrite (Nat.eqb_sym x a), (Nat.eqb_sym x b).
+    destruct (a =? x); destruct (b =? x); simpl; try reflexivity;
+      destruct (existsb (Nat.eqb x) (pair_labels pairs)); reflexivity.
+Qed.
+
+Lemma NoDup_map_inj_on : forall (f : nat -> nat) l, NoDup l ->
+  (forall x y, In x l -> In y l -> f x = f y -> x = y) -> NoDup (map f l).
+Proof.
+  intros f l ND. induction ND as [|x l Hn ND IH]; intros Inj; simpl; constructor.
+  - intro H. apply in_map_iff in H. destruct H as (y & E & Hy).
+    assert (y = x) by (apply Inj; [right; exact Hy|left; reflexivity|exact E]). subst. tauto.
+  - apply IH. intros a b Ha Hb. apply Inj; right; assumption.
+Qed.
+
+Lemma pair_labels_map : forall (g : nat -> nat) pairs,
+  pair_labels (map (fun p => (g (fst p), g (snd p))) pairs) = map g (pair_labels pairs).
+Proof.
+  intros g pairs. induction pairs as [|[a b] pairs IH]; simpl; [reflexivity|].
+  unfold pair_labels in *. simpl. rewrite IH. reflexivity.
+Qed.
+
+(* tensor_contract, any Qobj type: the dims labels of the pairs are mapped to
+   tensor axes, and at every step _tensor_contract_single receives the two
+   positions that currently carry those axes; what is left are the
+   uncontracted axes in their original (memory) order *)
+Theorem tensor_contract_positions : forall stl str fl fr pairs,
+  length stl = length fl -> length str = length fr ->
+  NoDup (pair_labels pairs) ->
+  (forall x, In x (pair_labels pairs) -> x < length (fl ++ fr)) ->
+  let n := length (fl ++ fr) in
+  let mo := memory_order stl str fl fr in
+  let tp := get_tensor_perm stl str fl fr in
+  let tpairs := map (fun p => (nth (fst p) tp 0, nth (snd p) tp 0)) pairs in
+  (forall x, In x (pair_labels pairs) -> nth x tp 0 < n /\ nth (nth x tp 0) mo 0 = x) /\
+  relabel_ok (seq 0 n) tpairs (contract_relabel (seq 0 n) tpairs) /\
+  final_axes (seq 0 n) tpairs
+    = filter (fun a => negb (memb a (map (fun x => nth x tp 0) (pair_labels pairs)))) (seq 0 n).
+Proof.
+  intros stl str fl fr pairs Hl Hr ND HB n mo tp tpairs.
+  destruct (memory_order_is_perm stl str fl fr Hl Hr) as [P _]. fold n mo in P.
+  assert (TP : tp = inverse_perm mo) by reflexivity.
+  assert (S : forall x, In x (pair_labels pairs) -> nth x tp 0 < n /\ nth (nth x tp 0) mo 0 = x).
+  { intros x Hx. rewrite TP. apply (inverse_perm_spec mo n x P). apply HB. exact Hx. }
+  assert (PL : pair_labels tpairs = map (fun x => nth x tp 0) (pair_labels pairs)).
+  { unfold tpairs. apply (pair_labels_map (fun x => nth x tp 0)). }
+  split; [exact S|]. split.
+  - apply contract_relabel_ok.
+    + apply seq_NoDup.
+    + rewrite PL. apply NoDup_map_inj_on; [exact ND|].
+      intros x y Hx Hy E. destruct (S x Hx) as [_ A]. destruct (S y Hy) as [_ B].
+      rewrite <- A, <- B, E. reflexivity.
+    + intros a Ha. rewrite PL in Ha. apply in_map_iff in Ha. destruct Ha as (x & E & Hx).
+      subst a. apply in_seq. destruct (S x Hx) as [A _]. lia.
+  - rewrite final_axes_spec by apply seq_NoDup. rewrite PL. reflexivity.
+Qed.
